@@ -183,8 +183,8 @@ def gen_topdown_case(rng, refine=None, max_instances=None, counts=(0, 1, 1, 2, 2
             animals = []
             for (x0, y0) in slots[:k]:
                 jit = 0.25 * step
-                cx = min(max(round((x0 + (rng.random() - 0.5) * jit) * 16) / 16 + 1 / 64, 1.0), W - 2.0)
-                cy = min(max(round((y0 + (rng.random() - 0.5) * jit) * 16) / 16 + 1 / 64, 1.0), H - 2.0)
+                cx = min(max(round((x0 + (rng.random() - 0.5) * jit) * 16) / 16, 1.0), W - 2.0) + 1 / 64
+                cy = min(max(round((y0 + (rng.random() - 0.5) * jit) * 16) / 16, 1.0), H - 2.0) + 1 / 64
                 # keypoints around the centroid, inside the crop with room for the centroid quantisation
                 qerr = os_c / (2 * sc) * si + 0.5 * os_c / sc * si * (1 if refine else 0)
                 rx = max((crop[1] / 2 - 2 - qerr) / ai, 0.5)
